@@ -9,3 +9,6 @@ mod rotate;
 
 pub use self::core::{EXTRA_LEN, TAG_LEN};
 pub use common::*;
+
+#[cfg(dswd_vpncloud_verif)]
+pub use self::{core::verif_hooks as verif_hooks_core, init::verif_hooks as verif_hooks_init, rotate::verif_hooks as verif_hooks_rotate};
